@@ -11,6 +11,7 @@ pub fn run_stream(ctx: &mut Ctx, name: &str) {
 	match name {
 		"compact" => compact_stream(ctx),
 		"enc" | "rt" | "mut" | "rand" | "exh" => catalogue::run_all(ctx, name),
+		"big" => big_stream(ctx),
 		other => panic!("unknown stream {}", other),
 	}
 }
@@ -346,7 +347,7 @@ pub fn run_type<T: Cat>(ctx: &mut Ctx, stream: &str, name: &str, o: &TypeOpts) {
 	let thorough = ctx.tier_thorough;
 	let tyseed = name.bytes().fold(ctx.seed, |a, b| a.wrapping_mul(31).wrapping_add(b as u64));
 	let mut g = G::new(tyseed ^ 0xE1C0DE, o.budget);
-	let n_vals = if thorough { 400 } else { 40 };
+	let n_vals = if thorough { 2000 } else { 150 };
 	match stream {
 		"enc" => {
 			for _ in 0..n_vals {
@@ -446,5 +447,88 @@ pub fn run_type<T: Cat>(ctx: &mut Ctx, stream: &str, name: &str, o: &TypeOpts) {
 			}
 		},
 		_ => unreachable!(),
+	}
+}
+
+// ---------------------------------------------------------------------------------------------
+// Lengths straddling the 16 KiB preallocation window (C01, C02, C07)
+// ---------------------------------------------------------------------------------------------
+
+fn big_lengths<T>(thorough: bool) -> Vec<usize> {
+	let sz = core::mem::size_of::<T>();
+	let c = if sz == 0 { 50_000 } else { 16384 / sz };
+	let mut v = vec![c - 1, c, c + 1, 2 * c + 1];
+	if thorough {
+		v.extend_from_slice(&[2 * c - 1, 2 * c, 3 * c, 3 * c + 1]);
+	}
+	v
+}
+
+fn big_for<T: Cat + Clone, C: Cat + FromIterator<T>>(ctx: &mut Ctx, name: &str) {
+	let mut g = G::new(ctx.seed ^ 0xB16, 8);
+	for n in big_lengths::<T>(ctx.tier_thorough) {
+		let v: C = (0..n)
+			.map(|_| {
+				g.budget = 2;
+				T::gen(&mut g)
+			})
+			.collect();
+		let (ans, _) = enc_answer(&v);
+		ctx.emit("big-enc", name, &format!("enc {} {}", C::ty(4), val_string(&v, false)), &ans);
+		let mut bs = v.encode();
+		bs.push(0xa5);
+		let (ans, dv) = dec_answer::<C>(&bs);
+		ctx.emit("big-rt", name, &format!("dec {} {}", C::ty(4), hex_or_dash(&bs)), &ans);
+		match dv {
+			Some((d, rem)) => {
+				if val_string(&d, true) != val_string(&v, true) || rem != 1 {
+					ctx.oracle_fail("C02", format!("{}: round trip of {} elements failed", name, n));
+				}
+			},
+			None => ctx.oracle_fail("C02", format!("{}: decode(encode(v)) failed for {} elements", name, n)),
+		}
+		// truncated by one byte: must fail (C14) and must not panic (C03)
+		let cut = &bs[..bs.len() - 2];
+		let (ans, _) = dec_answer::<C>(cut);
+		ctx.emit("big-cut", name, &format!("dec {} {}", C::ty(4), hex_or_dash(cut)), &ans);
+		if ans != "err" && C::min_len() > 0 && n > 0 && core::mem::size_of::<T>() > 0 {
+			ctx.oracle_fail("C14", format!("{}: strict prefix of an encoding of {} elements decoded: {}", name, n, &ans[..ans.len().min(40)]));
+		}
+	}
+}
+
+fn big_stream(ctx: &mut Ctx) {
+	use crate::derived::{TwinU32, TwinU8};
+	use std::collections::{BTreeSet, LinkedList, VecDeque};
+	big_for::<u8, Vec<u8>>(ctx, "Vec<u8>");
+	big_for::<i8, Vec<i8>>(ctx, "Vec<i8>");
+	big_for::<u16, Vec<u16>>(ctx, "Vec<u16>");
+	big_for::<i16, Vec<i16>>(ctx, "Vec<i16>");
+	big_for::<u32, Vec<u32>>(ctx, "Vec<u32>");
+	big_for::<i32, Vec<i32>>(ctx, "Vec<i32>");
+	big_for::<u64, Vec<u64>>(ctx, "Vec<u64>");
+	big_for::<i64, Vec<i64>>(ctx, "Vec<i64>");
+	big_for::<u128, Vec<u128>>(ctx, "Vec<u128>");
+	big_for::<i128, Vec<i128>>(ctx, "Vec<i128>");
+	big_for::<f32, Vec<f32>>(ctx, "Vec<f32>");
+	big_for::<f64, Vec<f64>>(ctx, "Vec<f64>");
+	big_for::<TwinU32, Vec<TwinU32>>(ctx, "Vec<TwinU32>");
+	big_for::<TwinU8, Vec<TwinU8>>(ctx, "Vec<TwinU8>");
+	big_for::<(u8, u16), Vec<(u8, u16)>>(ctx, "Vec<(u8,u16)>");
+	big_for::<Option<u32>, Vec<Option<u32>>>(ctx, "Vec<Option<u32>>");
+	big_for::<(), Vec<()>>(ctx, "Vec<()>");
+	big_for::<u8, VecDeque<u8>>(ctx, "VecDeque<u8>");
+	big_for::<u64, VecDeque<u64>>(ctx, "VecDeque<u64>");
+	big_for::<TwinU32, VecDeque<TwinU32>>(ctx, "VecDeque<TwinU32>");
+	big_for::<u16, LinkedList<u16>>(ctx, "LinkedList<u16>");
+	big_for::<u32, BTreeSet<u32>>(ctx, "BTreeSet<u32>");
+	// a long string (the Vec<u8> bulk path plus UTF-8 validation)
+	for n in [16383usize, 16384, 16385, 40000] {
+		let s: String = (0..n).map(|i| if i % 7 == 0 { 'é' } else { 'a' }).collect();
+		let (ans, _) = enc_answer(&s);
+		ctx.emit("big-enc", "String", &format!("enc str {}", val_string(&s, false)), &ans);
+		let bs = s.encode();
+		let (ans, _) = dec_answer::<String>(&bs);
+		ctx.emit("big-rt", "String", &format!("dec str {}", hex_or_dash(&bs)), &ans);
 	}
 }
